@@ -37,6 +37,8 @@ def _app(rng, tag, mode):
         return [["recv"], ["send", start], ["recv_until_end"], ["send", body]]
     if mode == "never":
         return [["send", start], ["send", body]]
+    if mode == "held":
+        return [["recv_until_end"], ["wait", "go%d" % tag], ["send", start], ["yield", rng.choice([0, 2])], ["send", body]]
     if mode == "slow":
         return [["recv_until_end"], ["yield", rng.choice([1, 5])], ["send", start], ["yield", rng.choice([1, 3])], ["send", body]]
     raise ValueError(mode)
@@ -63,7 +65,7 @@ def gen(rng, tier):
             if req["connection"] is not None:
                 req["headers"] = list(req["headers"]) + [(b"Connection", req["connection"])]
                 req["ows"] = (req.get("ows") or []) + [b" "]
-            mode = rng.choice(["after", "after", "before", "while", "never", "slow"])
+            mode = rng.choice(["after", "after", "before", "while", "never", "slow", "held", "held"])
             # number of http.request messages the body produces (upper bound) decides whether "never" can deadlock
             modes.append(mode)
             by_tag[str(tag)] = _app(rng, tag, mode)
@@ -85,6 +87,10 @@ def gen(rng, tier):
             b = min(max(1, b), len(blob) - 1) if len(blob) > 1 else 1
             client = [["feed_split", blob, [b, len(blob) - b]]]
         client.append(["settle"])
+        # responses that were held back are released one by one, in order, only after all the bytes have been read
+        for k, m in enumerate(modes):
+            if m == "held":
+                client += [["trigger", "go%d" % reqs[k]["tag"]], ["settle"]]
         yield {
             "family": "pipeline%d.%s" % (nreq, seg), "backends": ["asyncio", "trio"],
             "config": {"keep_alive_timeout": 5000, "keep_alive_max_requests": maxreq,
